@@ -259,7 +259,7 @@ func finish(spec *propSpec, tier string, seed int, rr *runResult, ff *FindingsFi
 // laterRules: rules added after the first build (DESIGN.md section 9), appended to each property's
 // coverage explanation so that the evidence names everything that was evaluated.
 var laterRules = map[string]string{
-	"C01": " ALSO DECIDED: float-precision (no run-time integer quotient feeds a float64 schedule formula); mul-wrap and overflow-guard follow single-site helpers of Pace; divisor facts established by the caller hold inside such helpers.",
+	"C01": " ALSO DECIDED: tolerance-two-sided (a float difference compared with a small positive tolerance goes through math.Abs or is bounded on both sides — the sine pacer's convergence test); float-precision (no run-time integer quotient feeds a float64 schedule formula); mul-wrap and overflow-guard follow single-site helpers of Pace; divisor facts established by the caller hold inside such helpers.",
 	"C02": " ALSO DECIDED: the sequence counter is identified structurally (the field loaded into Result.Seq) and must belong to the per-attack object; function-literal workers and deferred named shutdown helpers are recognised.",
 	"C03": " ALSO DECIDED: ticks-unbuffered (the tick channel is a rendezvous); growth-condition (before the non-blocking offer the only extra branch condition is the spare-capacity test).",
 	"C04": " ALSO DECIDED: ticks-unbuffered; the start instant is written once in Attack from time.Now(); duration test in either polarity; three-clause for loops.",
